@@ -346,6 +346,22 @@ func Context(c *linter.Context, fset *token.FileSet) uint64 {
 	for _, k := range keys {
 		h.str(k)
 	}
+	// any further field (e.g. one added later, exported or not) is walked by reflection, so that state hidden
+	// in the shared context is noticed as well
+	known := map[string]bool{"TypesInfo": true, "SizesInfo": true, "GoVersion": true, "FileSet": true, "Pkg": true, "Filename": true, "Require": true, "PkgObjects": true, "PkgRenames": true}
+	rv := reflect.ValueOf(c).Elem()
+	for i := 0; i < rv.NumField(); i++ {
+		name := rv.Type().Field(i).Name
+		if known[name] {
+			continue
+		}
+		f := rv.Field(i)
+		if !f.CanInterface() {
+			f = reflect.NewAt(f.Type(), unsafe.Pointer(f.UnsafeAddr())).Elem()
+		}
+		h.str(name)
+		h.walk(f, "Context."+name)
+	}
 	return h.h
 }
 
